@@ -943,12 +943,47 @@ mod v_iface_neighbor {
         Dispatch,
     }
 
+    /// A device whose transmit token writes into a separately allocated capture state.  (`verif_dev::CapDev`, which
+    /// embeds its three 64/96-byte buffers, makes CBMC run out of 8 GB in propositional reduction as soon as
+    /// dispatch_ip writes a frame through its token - measured: same harness, 0.6 M variables with this device.)
+    struct MiniDev<'s> {
+        tx_ok: bool,
+        st: &'s mut TxState<CAP>,
+    }
+    impl<'s> Device for MiniDev<'s> {
+        type RxToken<'a>
+            = crate::verif_dev::NoRx
+        where
+            Self: 'a;
+        type TxToken<'a>
+            = CapTx<'a, CAP>
+        where
+            Self: 'a;
+        fn capabilities(&self) -> DeviceCapabilities {
+            let mut c = DeviceCapabilities::default();
+            c.medium = Medium::Ethernet;
+            c.max_transmission_unit = 1514;
+            c.checksum = ChecksumCapabilities::ignored();
+            c
+        }
+        fn receive(&mut self, _t: Instant) -> Option<(Self::RxToken<'_>, Self::TxToken<'_>)> {
+            None
+        }
+        fn transmit(&mut self, _t: Instant) -> Option<Self::TxToken<'_>> {
+            if self.tx_ok {
+                Some(CapTx { st: &mut *self.st })
+            } else {
+                None
+            }
+        }
+    }
+
     /// socket_egress's loop body for a UDP socket item; returns (socket was polled, PollResult of the pass)
     #[cfg(all(feature = "proto-ipv4", feature = "socket-udp"))]
     fn egress_one_udp(
         inner: &mut InterfaceInner,
         fragmenter: &mut Fragmenter,
-        device: &mut CapDev<CAP>,
+        device: &mut MiniDev<'_>,
         meta: &mut crate::iface::socket_meta::Meta,
         socket: &mut crate::socket::udp::Socket<'_>,
     ) -> (bool, PollResult) {
@@ -959,7 +994,12 @@ mod v_iface_neighbor {
         let mut neighbor_addr = None;
         let mut respond = |inner: &mut InterfaceInner, meta: PacketMeta, response: Packet| {
             neighbor_addr = Some(response.ip_repr().dst_addr());
-            let t = device.transmit(inner.now).ok_or(EgressError::Exhausted)?;
+            // = `device.transmit(inner.now).ok_or(EgressError::Exhausted)?` for MiniDev, written out: a token that has
+            // travelled through an `Option` loses its points-to precision in CBMC (8 GB exhausted, measured)
+            if !device.tx_ok {
+                return Err(EgressError::Exhausted);
+            }
+            let t = CapTx { st: &mut *device.st };
             inner.dispatch_ip(t, meta, response, fragmenter).map_err(|_| EgressError::Dispatch)?;
             result = PollResult::SocketStateChanged;
             Ok(())
@@ -990,7 +1030,8 @@ mod v_iface_neighbor {
         {
             use crate::iface::socket_meta::Meta;
             use crate::socket::udp as sudp;
-            let mut dev = CapDev::<CAP>::new(Medium::Ethernet, 1514, ChecksumCapabilities::ignored());
+            let mut st = TxState::<CAP>::new();
+            let mut dev = MiniDev { tx_ok: true, st: &mut st };
             let now = any_instant(0, T_MAX);
             let mut iface = Interface::new(Config::new(HardwareAddress::Ethernet(OWN_MAC)), &mut dev, now);
             push_own_addrs(&mut iface, false);
@@ -1027,14 +1068,14 @@ mod v_iface_neighbor {
             let (polled1, r1) = egress_one_udp(&mut inner, &mut fragmenter, &mut dev, &mut meta, &mut sock);
             assert!(polled1, "prop:c16_fresh_socket_is_polled");
             // the datagram is still queued, nothing claims to have been sent
-            assert!(sock.send_queue() == 1, "prop:c16_datagram_stays_queued_while_neighbor_unknown");
+            assert!(sock.send_queue() == 4, "prop:c16_datagram_stays_queued_while_neighbor_unknown"); // (octets)
             assert!(r1 == PollResult::None, "prop:c16_unresolved_egress_reports_no_progress");
             // at most one frame, and it is the ARP request - never the datagram to a guessed address
-            let arp_sent = dev.tx.frames == 1;
-            assert!(dev.tx.frames <= 1, "prop:c16_at_most_one_arp_request");
+            let arp_sent = dev.st.frames == 1;
+            assert!(dev.st.frames <= 1, "prop:c16_at_most_one_arp_request");
             assert!(arp_sent == (tx_ok1 && now >= m.silent), "prop:c16_request_only_when_not_silent");
             if arp_sent {
-                check_request_frame(&dev.tx.buf0, dev.tx.len0, &dst);
+                check_request_frame(&dev.st.buf0, dev.st.len0, &dst);
             }
             let mut m1 = m;
             if arp_sent {
